@@ -549,7 +549,8 @@ class E6Anim(Engine):
     ]
     rule = (
         "1-3 animations (all four styles, texts from empty to longer than the row, loop on/off, speed 0-500 ms) on "
-        "distinct rows of one display, started in setup; the main loop has no LCD statement and at most one sleep; "
+        "distinct rows of one display, each started before the main loop, inside a helper, or inside the loop body on "
+        "pass 0/1/2/5 (directly or through a helper); the main loop has at most one sleep; "
         "tick schedules: on time, early (zero-gap passes), late, clock jumps, boot at 0 or later; board monitors: no "
         "delay besides the user's sleep, ticks per pass non-increasing and >= looping animations, every frame covers "
         "exactly its row, >= speed_ms between steps once millis() >= 1, bounded termination / liveness; the host "
